@@ -217,13 +217,18 @@ impl<CS: BbsCiphersuite> Signature<BBSplus<CS>> {
         update_index: usize,
         n: usize,
     ) -> Result<Self, Error> {
-        let generators = Generators::create::<CS>(n + 1, Some(CS::API_ID));
+        // Q1 plus one generator per message; checked so that a huge `n` is refused instead of overflowing
+        let generators_number = n
+            .checked_add(1)
+            .ok_or_else(|| Error::UpdateSignatureError("n + 1 overflows".to_owned()))?;
 
-        if generators.values.len() <= update_index + 1 {
+        if n <= update_index {
             return Err(Error::UpdateSignatureError(
                 "len(generators) <= update_index".to_owned(),
             ));
         }
+
+        let generators = Generators::create::<CS>(generators_number, Some(CS::API_ID));
 
         let old_message_scalar =
             BBSplusMessage::map_message_to_scalar_as_hash::<CS>(old_message, CS::API_ID)?;
